@@ -8,6 +8,7 @@ import (
 	"net/http"
 	"sort"
 	"strings"
+	"time"
 
 	"verif/sim/oracle"
 )
@@ -58,7 +59,7 @@ func (w *c12World) candidates(op *c12Op, c *rtCall, h *hon) ([]mutation, []int) 
 			ms = append(ms, mutation{n, group})
 		}
 	}
-	add("http", "status", "header", "net.cut", "net.err", "redirect", "net.closeerr", "declen", "declen")
+	add("http", "status", "header", "net.cut", "net.err", "redirect", "net.closeerr", "declen", "declen", "net.late-eof")
 	if h.status == 200 {
 		add("http", "trunc", "trail")
 		add("json", "jsontype", "jsonnull", "missing", "whole")
@@ -180,6 +181,11 @@ func (w *c12World) mutate(op *c12Op, c *rtCall, h *hon) *served {
 	extreme := []uint64{0, ^uint64(0), 1 << 63, 1<<63 - 1}[t.Intn(4)]
 
 	switch m.name {
+	case "net.late-eof":
+		// the whole correct body arrives; the end of the stream is reported when the driver says so - before or after the
+		// caller's context has ended. Success with exactly what was served, or the context's error: nothing else.
+		o.LateEOF = true
+		raw = h.body()
 	case "net.closeerr":
 		// the whole correct body arrives; closing it then fails
 		o.CloseErr = true
@@ -197,7 +203,11 @@ func (w *c12World) mutate(op *c12Op, c *rtCall, h *hon) *served {
 			// headers are legal on every status: a server that sheds load says when to come back - in a moment, or never
 			// mind when (a client that takes this as an invitation to ask again on its own still has to report what it is
 			// told the second time)
-			o.Header.Set("Retry-After", []string{"0", "1", "5", "0", "120"}[t.Intn(5)])
+			// seconds, a negative number, an HTTP date that has already passed by the client's clock (a date has one-second
+			// granularity and takes a while to arrive), a date to come
+			past := time.Now().Add(-3 * time.Second).UTC().Format(http.TimeFormat)
+			soon := time.Now().Add(2 * time.Second).UTC().Format(http.TimeFormat)
+			o.Header.Set("Retry-After", []string{"0", "1", "5", "0", "120", "-1", past, past, soon}[t.Intn(9)])
 			if o.Status != 429 && o.Status != 503 && t.Chance(1, 2) {
 				o.Status = []int{429, 503}[t.Intn(2)]
 				if o.Status == h.status {
